@@ -302,33 +302,6 @@ fn read_cursor(cur: &str, fast: bool) -> Option<CurInfo> {
   }
 }
 
-/// does the sort cursor carry an `f64` value whose JSON text is not reproduced by parsing and
-/// printing it again with serde_json (the cursor's own codec)?  Evidence on the implementation's
-/// side only: the same crate the code uses, no model involved.
-fn f64_value_changed_by_json(cur: &str) -> bool {
-  if !cur.is_ascii() || cur.len() % 2 != 0 {
-    return false;
-  }
-  let Ok(text) = String::from_utf8(unhex(cur)) else { return false };
-  let pat = "{\"t\":\"f64\",\"v\":";
-  let mut rest = text.as_str();
-  while let Some(at) = rest.find(pat) {
-    let tail = &rest[at + pat.len()..];
-    let end = tail.find('}').unwrap_or(tail.len());
-    let lex = &tail[..end];
-    match serde_json::from_str::<f64>(lex) {
-      Ok(v) => {
-        if serde_json::to_string(&v).ok().as_deref() != Some(lex) {
-          return true;
-        }
-      }
-      Err(_) => return true,
-    }
-    rest = &tail[end..];
-  }
-  false
-}
-
 // ---------------------------------------------------------------------------------------------
 // cursor mutations (ASCII only)
 
@@ -702,7 +675,14 @@ fn build(case: &Value) -> Result<(tempfile::TempDir, Index), String> {
 /// segments of the real manifest as the model sees them
 fn manifest_view(idx: &Index) -> (u64, Value) {
   let m = idx.manifest();
-  let g = m.segments.iter().map(|s| s.generation as u64).max().unwrap_or(0);
+  // the generation cursors are bound to is the manifest revision (every effective commit and
+  // compaction bumps it).  Read through the manifest's own serde form so that the harness also
+  // builds against a tree without that field (then: the maximal segment generation, as before
+  // fc973e1 — the model still expects the revision and the correspondence breaks).
+  let g = serde_json::to_value(&m)
+    .ok()
+    .and_then(|v| v["revision"].as_u64())
+    .unwrap_or_else(|| m.segments.iter().map(|s| s.generation as u64).max().unwrap_or(0));
   let segs: Vec<Value> = m
     .segments
     .iter()
@@ -744,7 +724,7 @@ fn state_part(v: &Value, kind: u8) -> Option<Value> {
   match t {
     "score" => Some(json!(f32_rank(v["v"].as_u64()? as u32))),
     "i64" => Some(json!(v["v"].as_i64()?)),
-    "f64" => Some(json!(f64_rank(v["lex"].as_str()?.parse::<f64>().ok()?))),
+    "f64" => Some(json!(f64_rank(f64::from_bits(v["v"].as_u64()?)))),
     "str" => {
       let b = unhex(v["hex"].as_str()?);
       Some(json!(str_rank(&b)?))
@@ -871,13 +851,11 @@ impl C11 {
     if let Some((at, o)) = &w.error {
       // the cursor that was sent with the failing request
       let sent = if *at > 0 { w.pages[*at - 1].next.clone() } else { None };
-      let f64_changed = sent.as_deref().map(|c| !fast && f64_value_changed_by_json(c)).unwrap_or(false);
       let sig = match o {
         Out::Panic(_) => "walk.page-panic",
-        _ if f64_changed => "walk.page-error.f64-sort-value-changed-by-cursor-json",
         _ => "walk.page-error",
       };
-      s.fail(sig, "a page of the walk failed although the index did not change", case, json!({"page": at, "outcome": o.to_json(), "pages_before": w.pages.iter().map(|p| p.ids.clone()).collect::<Vec<_>>()}));
+      s.fail(sig, "a page of the walk failed although the index did not change", case, json!({"page": at, "outcome": o.to_json(), "cursor_sent": sent, "pages_before": w.pages.iter().map(|p| p.ids.clone()).collect::<Vec<_>>()}));
     } else {
       if walked_ids != all.ids {
         let mut seen = BTreeSet::new();
@@ -1329,7 +1307,7 @@ impl Prop for C11 {
     "case = (1-4 commit batches = segments over a schema with text body, fast keyword tag, fast i64 n, fast f64 x; missing / single / multi values from small domains, cloned batches for score ties across segments, optional delete-only commit; query match_all | term | 1-4 words; sort plan default | _score asc/desc | 1-3 of {_score,tag,n,x} with asc/desc/default; page size 1..7; execution wand|bm25; one post operation commit_add | delete_only | delete_cursor_doc | compact | other_sort | reopen; the page-1 cursor is also replayed against every neighbouring plan (one key direction flipped incl. _score inside multi-key plans, last key dropped, first two keys swapped); 6 random ASCII cursor mutations + the advance cap 50000/50001). Non-trivial = the walk has >= 2 pages AND at least two matches tie on the primary sort value; distinct = distinct case JSON. The corpus adds one case per finding, among them a single request with limit > 20000 over 20011 matches."
   }
   fn count(&self, tier: Tier) -> usize {
-    tier.pick(301, 6001)
+    tier.pick(201, 6001)
   }
   fn gen(&self, rng: &mut Rng, _tier: Tier, i: usize) -> Value {
     // the `big` kind (one request with limit > MAX_CANDIDATE_SIZE over 20011 matches) runs from
